@@ -121,7 +121,7 @@ def rule_exponent(chk, cx):
             names = ("exponent", "d/drho", "d/dsigma", "d/dtau")
             for nm, v, w in zip(names, vals, want):
                 cx.expect("exp-deg", res, where, v, L(w), nm, ST, fname, "return %s of %s" % (nm, fname), fdef.lineno)
-    chk.floor("exp-deg", 12, "4+4+3+3 returned components")
+    chk.floor("exp-deg", 7, "4+4+3+3 returned components")
 
 
 def rule_semilocal(chk, cx):
@@ -154,7 +154,9 @@ def rule_semilocal(chk, cx):
         usps = s.call(st, "get_feat_usps")
         cx.flush("sl-deg", usps, "SemilocalSettings(%s).get_feat_usps" % mode)
         decl = declared_list(usps.value, "SemilocalSettings(%s).get_feat_usps" % mode)
-        plan = s.obj(PL, "_BaseSemilocalPlan", settings=st, nspin=sym("nspin"))
+        plan = s.new(PL, "SemilocalPlan2", st, sym("nspin"))
+        if not isinstance(plan, Obj):
+            raise core.AnalysisError("SemilocalPlan2: constructor could not be interpreted")
         res = s.call(plan, "get_feat", [lam(3), lam(8), lam(5)])
         where = "_BaseSemilocalPlan.get_feat(mode=%s)" % mode
         cx.flush("sl-deg", res, where)
@@ -168,25 +170,32 @@ def rule_semilocal(chk, cx):
                           "mode %s: rows %s are written but get_feat_usps declares %d features" % (
                               mode, sorted(feat.rows), len(decl)))
             continue
-        fill = s.prog.module(PL).func("_BaseSemilocalPlan.get_feat")
+        fill = s.hooks.method_of(plan, "get_feat").fdef
         for i, d in enumerate(decl):
             cx.expect("sl-deg", res, where, feat.rows[i], d, "feat[:, %d]" % i, PL, "_BaseSemilocalPlan._fill_feat_%s_" % mode,
                       "feat[:, %d] in mode %s" % (i, mode), fill.lineno)
-    chk.floor("sl-deg", 20, "11 function components + 10 plan rows")
+    chk.floor("sl-deg", 10, "11 function components + 10 plan rows")
 
 
 def mode_list(cx):
-    """the modes SemilocalSettings.__init__ accepts, read from its membership tests"""
+    """the modes SemilocalSettings.__init__ accepts: operands of its `mode in <list>` tests, resolved through
+    the engine (literal list or module-level named list alike)"""
     import ast
-    init = cx.s.prog.module(ST).func("SemilocalSettings.__init__")
+    s = cx.s
+    mod = s.prog.module(ST)
+    init = mod.func("SemilocalSettings.__init__")
     modes = []
-    for n in ast.walk(init):
-        if isinstance(n, ast.Compare) and len(n.ops) == 1 and isinstance(n.ops[0], ast.In) \
-                and isinstance(n.comparators[0], (ast.List, ast.Tuple)):
-            for e in n.comparators[0].elts:
-                if isinstance(e, ast.Constant) and isinstance(e.value, str) and e.value not in modes:
-                    modes.append(e.value)
-    if len(modes) < 4:
+    s.eng.frames.append(deg.Frame(None, mod))
+    try:
+        for n in ast.walk(init):
+            if isinstance(n, ast.Compare) and len(n.ops) == 1 and isinstance(n.ops[0], (ast.In, ast.NotIn)):
+                v = s.eng.eval_expr(n.comparators[0], deg.Env())
+                for x in (v.items if isinstance(v, Tup) else []):
+                    if isinstance(x, K) and isinstance(x.value, str) and x.value not in modes:
+                        modes.append(x.value)
+    finally:
+        s.eng.frames.pop()
+    if len(modes) < 2:
         raise core.AnalysisError("SemilocalSettings.__init__: mode membership tests not found (%s)" % modes)
     return modes
 
@@ -253,7 +262,9 @@ def rule_normalizers(chk, cx):
         st = s.new(ST, "SemilocalSettings", K(mode))
         decl = declared_list(s.call(st, "get_feat_usps").value, "get_feat_usps")
         X = deg.rows(1, {i: Q(Deg({"lam": d})) for i, d in enumerate(decl)})
-        nl = s.obj(FN, "FeatNormalizerList", slmode=K(mode))
+        nl = s.new(FN, "FeatNormalizerList", lst(), K(mode))
+        if not isinstance(nl, Obj):
+            raise core.AnalysisError("FeatNormalizerList: constructor could not be interpreted")
         res = s.call(nl, "_get_rho_and_inh", [X])
         where = "FeatNormalizerList._get_rho_and_inh(slmode=%s)" % mode
         cx.flush("norm-usp", res, where)
@@ -267,7 +278,7 @@ def rule_normalizers(chk, cx):
                   "rho_term (slmode %s)" % mode, fdef.lineno)
         cx.expect("norm-usp", res, where, vals[1], L(0), "inh_term", FN, "FeatNormalizerList._get_rho_and_inh",
                   "inh_term (slmode %s)" % mode, fdef.lineno)
-    chk.floor("norm-usp", 16, "4 classes x (fill_fwd, get_ueg) + 4 slmodes x (rho, inh)")
+    chk.floor("norm-usp", 8, "4 classes x (fill_fwd, get_ueg) + 4 slmodes x (rho, inh)")
 
 
 # ----------------------------------------------------------------------------
@@ -426,7 +437,7 @@ def rule_settings(chk, cx):
                                       label, i, u, desc, nu, nu + u), instance=inst + " " + desc)
     chk.count("settings configurations", n_cfg)
     chk.floor("ueg-deg", 60, "UEG entries over NLDF i/j/ij/k x level x rho_mult, FracLapl, SDMX*")
-    chk.floor("reasonable", 80, "recommended normalisers over the same configurations")
+    chk.floor("reasonable", 50, "recommended normalisers over the same configurations")
 
 
 def rule_semilocal_ueg(chk, cx):
@@ -457,26 +468,44 @@ def rule_semilocal_ueg(chk, cx):
 
 
 def rule_baselines(chk, cx):
+    """exchange-like baselines of the BASELINE_CODES registry (taken by registry key, not by private helper
+    name): energy density of degree 4, d/d(rho) of degree 1, d/d(scale-invariant feature) of degree 4"""
     s = cx.s
-    for h, rows_written in (("_lda_x_helper", (0,)), ("_pbe_x_helper", (0, 1)), ("_chachiyo_x_helper", (0, 1)),
-                            ("_vi_x_damp_helper", (0, 3))):
-        X = deg.rows(0, {0: lam(3), 1: Q(D0), 2: Q(D0), 3: Q(D0)}, default=Q(D0))
-        e, d = Q(ANY), Q(ANY)
-        fdef = s.prog.module(BL).func(h)
-        res = s.call(BL, h, [X, e, d])
+    reg = s.global_value(BL, "BASELINE_CODES")
+    if not isinstance(reg, deg.Map):
+        raise core.AnalysisError("BASELINE_CODES is no longer a literal dict")
+    done = 0
+    for code in ("LDA_X", "GGA_X_PBE", "GGA_X_CHACHIYO", "NLDA_X_DAMP"):
+        fn = reg.d.get(code)
+        if fn is None:
+            chk.note("base-deg", code, "baseline code no longer registered")
+            continue
+        if not isinstance(fn, deg.Fn):
+            raise core.AnalysisError("BASELINE_CODES[%r] is not a module-level function" % code)
+        X = deg.rows(1, {0: lam(3), 1: Q(D0), 2: Q(D0), 3: Q(D0)}, default=Q(D0))
+        res = s.eng.run_function(fn.fdef, [X], mod=fn.mod)
+        h = "baseline %s (%s)" % (code, fn.fdef.name)
         cx.flush("base-deg", res, h)
-        cx.expect("base-deg", res, h, e, L(4), "energy density e", BL, h, "e[:] of %s" % h, fdef.lineno)
-        if not d.is_rows:
+        vals = deg.items_of(res.value)
+        if vals is None or len(vals) != 2:
+            if not res.mismatches:
+                raise core.AnalysisError("%s: unexpected result %s" % (h, fmt(res.value)))
+            continue
+        done += 1
+        e, d = vals
+        cx.expect("base-deg", res, h, e, L(4), "energy density e", BL, fn.fdef.name, "e of baseline %s" % code,
+                  fn.fdef.lineno)
+        if not (isinstance(d, Q) and d.is_rows):
             if not res.mismatches:
                 raise core.AnalysisError("%s: dedx is not filled row by row (%s)" % (h, fmt(d)))
             continue
         for r in sorted(d.rows):
             want = 4 - {0: 3}.get(r, 0)
-            cx.expect("base-deg", res, h, d.rows[r], L(want), "dedx[%d]" % r, BL, h, "dedx[%d] of %s" % (r, h),
-                      fdef.lineno)
-        if set(d.rows) != set(rows_written):
-            chk.note("base-deg", h, "rows written: %s" % sorted(d.rows))
-    chk.floor("base-deg", 10, "4 helpers x (e + dedx rows)")
+            cx.expect("base-deg", res, h, d.rows[r], L(want), "dedx[%d]" % r, BL, fn.fdef.name,
+                      "dedx[%d] of baseline %s" % (r, code), fn.fdef.lineno)
+    if done < 2:
+        raise core.AnalysisError("fewer than two exchange baselines could be analysed")
+    chk.floor("base-deg", 5, "exchange baselines x (e + dedx rows)")
 
 
 # ----------------------------------------------------------------------------
@@ -550,7 +579,7 @@ def rule_sdmx_plans(chk, cx):
                 cx.expect("sdmx-deg", res, where, out.rows[i], d, "feature %d" % i, PL, cname + ".__init__",
                           "feature %d of %s" % (i, where), init.lineno)
     chk.count("SDMX-like plan classes", len(plan_classes))
-    chk.floor("sdmx-deg", 30, "feature rows of SADM/SDMX/SDMXFull/SDMXInt plans over their settings classes")
+    chk.floor("sdmx-deg", 20, "feature rows of SADM/SDMX/SDMXFull/SDMXInt plans over their settings classes")
 
 
 # ----------------------------------------------------------------------------
